@@ -80,6 +80,11 @@ CLAIMS['C09'] = ('proof',
     'primary key, and RowSelector::select_rows returns for every table and WHERE clause exactly the rows the reference table scan returns (an index hit is used, a miss falls back to the scan) - under the stated assumption that an index HIT is the scan result. '
     'The inline copy of that logic in DeleteExecutor::execute_internal, SET evaluation on pre-update values, row counts and INSERT coercion are not under contract.',
     _B_NOTE, 'contract-based deductive verification: Verus on mechanically extracted functions over the real AST types', 'DESIGN.md 5/C09')
+CLAIMS['C28'] = ('proof',
+    'The statement is the contract proved by Verus (all messages, all vector lengths, loop invariants) on the real text of BackendMessage::encode, put_cstring, encode_notice_or_error and TransactionStatus::as_byte: for every message that '
+    'fits the wire format the bytes appended are exactly one frame - type byte, big-endian i32 length equal to the number of bytes after the type byte, then the field serialisation of the PostgreSQL v3 format written as independent spec functions. '
+    'For messages outside the format\'s domain (more than 32767 fields, over-long frames, NUL inside strings) encode truncates silently: a recorded finding reproduced against the real code. Parse-back is represented by the spec frame format, its injectivity is not proved.',
+    _B_NOTE, 'contract-based deductive verification: Verus on mechanically extracted functions with loop invariants over an assumed-contract BytesMut', 'DESIGN.md 5/C28')
 NOT_APPLICABLE = {
     'C04': 'concurrency/rayon scheduling: Kani has no threads, Verus needs permission-typed code; the determinism-relevant comparator laws are claimed under C21/C08',
     'C05': 'every anchor is an AST-to-plan transformation or a join operator over Database/evaluator state: AST walks do not finish in CBMC and the code is outside the Verus subset',
